@@ -889,7 +889,24 @@ def _r6(repo, L, m, ba):
     okm = False
     if ma is not None:
         loops = [n for n in walk_shallow(ma.node) if isinstance(n, ast.For)]
-        okm = len(loops) == 2 and not any(isinstance(x, ast.If | ast.Continue | ast.Break) for x in walk_shallow(ma.node)) and any("add_scaffold" in norm(c) for c in repo.calls_in(ma))
+        lp_ = ma.params()[0]
+        no_skip = not any(isinstance(x, ast.If | ast.Continue | ast.Break) for x in walk_shallow(ma.node)) and not any(g.ifs for x in walk_shallow(ma.node) if isinstance(x, ast.GeneratorExp | ast.ListComp) for g in x.generators)
+        adds_ = any("add_scaffold" in norm(c) for c in repo.calls_in(ma))
+        flat = False
+        if len(loops) == 2:
+            flat = is_name(loops[0].iter, lp_) and isinstance(loops[0].target, ast.Name) and norm(loops[1].iter) == f"{loops[0].target.id}.scaffolds"
+        elif len(loops) == 1:
+            it = loops[0].iter
+            # chain.from_iterable(a.scaffolds for a in <list>)
+            if isinstance(it, ast.Call) and (dotted(it.func) or "").endswith("chain.from_iterable") and len(it.args) == 1 and isinstance(it.args[0], ast.GeneratorExp | ast.ListComp) and len(it.args[0].generators) == 1:
+                g = it.args[0].generators[0]
+                flat = is_name(g.iter, lp_) and isinstance(g.target, ast.Name) and norm(it.args[0].elt) == f"{g.target.id}.scaffolds"
+            elif isinstance(it, ast.GeneratorExp | ast.ListComp) and len(it.generators) == 2:
+                g1, g2 = it.generators
+                flat = is_name(g1.iter, lp_) and isinstance(g1.target, ast.Name) and norm(g2.iter) == f"{g1.target.id}.scaffolds" and is_name(it.elt, g2.target.id if isinstance(g2.target, ast.Name) else "")
+            else:
+                raise AnalysisError(f"merge_assemblies: iteration over '{norm(it)[:60]}' is not a form understood (nested loops, chain.from_iterable, nested comprehension)")
+        okm = flat and no_skip and adds_
     L.check(okm, "R6", "merge_assemblies", "merging keeps every scaffold", "merge_assemblies drops scaffolds", ma.loc() if ma else "")
 
 
